@@ -739,6 +739,21 @@ func runC15(c *Ctx) {
 		if calleeName(&d.Call) == "(*gopkg.in/yaml.v3.Encoder).Close" {
 			okY = true
 		}
+		// defer func() { _ = enc.Close() }()
+		if df := deferredBody(d); df != nil {
+			closes := callsIn(df, "(*gopkg.in/yaml.v3.Encoder).Close")
+			if len(closes) >= 1 {
+				all := true
+				for _, r := range returnsOf(df) {
+					if pathExists(df, nil, r, nil, isCallInstrTo("(*gopkg.in/yaml.v3.Encoder).Close")) {
+						all = false
+					}
+				}
+				if all {
+					okY = true
+				}
+			}
+		}
 	}
 	c.obF("R15.6", yp, "yaml-encoder-closed", okY, "the YAML encoder is closed (flushes the document)", "")
 }
